@@ -67,6 +67,32 @@ class BaseTransformation(ABC):
         else:
             raise ValueError("output type not supported")
 
+    @staticmethod
+    def _convert(
+        arr: np.ndarray, dtype: type
+    ) -> Union[np.ndarray, darsia.Coordinate, darsia.Voxel, darsia.VoxelCenter]:
+        """Convert the plain result of the transformation to a point type.
+
+        Args:
+            arr (np.ndarray): function values of the (inverse) transformation
+            dtype (type): np.ndarray or one of the point (array) types
+
+        Returns:
+            np.ndarray, or point (array): function values in the requested type
+
+        """
+        if dtype is np.ndarray:
+            # Plain arrays (the default type); np.ndarray(...) would interpret the
+            # values as a shape.
+            return np.asarray(arr)
+        elif issubclass(dtype, darsia.Voxel):
+            # Voxels address cells through integer indices (the cell centered at
+            # index + 0.5). The transformation acts on these indices, so the nearest
+            # index is the image voxel; flooring would turn 2.9999999999999996 into 2.
+            return dtype(np.floor(arr + 0.5))
+        else:
+            return dtype(arr)
+
     @abstractmethod
     def set_parameters_as_vector(self, parameters: np.ndarray) -> None:
         """Set parameters of transformation as vector.
@@ -125,9 +151,9 @@ class BaseTransformation(ABC):
 
         # Convert to right output type
         if array_input:
-            return self.output_array_dtype(out_arr)
+            return self._convert(out_arr, self.output_array_dtype)
         else:
-            return self.output_dtype(out_arr[0])
+            return self._convert(out_arr[0], self.output_dtype)
 
     def inverse(
         self,
@@ -157,9 +183,9 @@ class BaseTransformation(ABC):
 
         # Convert to right output type
         if array_input:
-            return self.input_array_dtype(out_arr)
+            return self._convert(out_arr, self.input_array_dtype)
         else:
-            return self.input_dtype(out_arr[0])
+            return self._convert(out_arr[0], self.input_dtype)
 
     @abstractmethod
     def call_array(self, x: np.ndarray) -> np.ndarray:
